@@ -28,7 +28,11 @@ PLAN = {
     "C12": {"level": "exploration", "units": [unit("side", "TestC12", 1000, 6000, replay="TestReplayC12")]},
     "C13": {"level": "fault_enumeration", "units": [unit("side", "TestC13", 250, 3000, replay="TestReplayC13")]},
     "C14": {"level": "exploration", "units": [unit("side", "TestC14", 1000, 15000, replay="TestReplayC14")]},
+    "C15": {"level": "exploration", "units": [
+        unit("disc", "TestC15", 500, 10000, replay="TestReplayC15"),
+        unit("disc", "TestC15Process", 50, 400, seed_off=700, workers={"quick": 1, "thorough": 4})]},
     "C16": {"level": "exploration", "units": [
         unit("cfgh", "TestC16", 250, 6000, replay="TestReplayC16", shrinktime="30s"),
         unit("cfgh", "TestC16Process", 40, 300, seed_off=700, workers={"quick": 1, "thorough": 4})]},
+    "C17": {"level": "exploration", "units": [unit("disc", "TestC17", 400, 8000, replay="TestReplayC17", race=True, shrinktime="30s")]},
 }
